@@ -575,6 +575,17 @@ def run(ctx: Any, prog: Program) -> None:
                 n16 += 1
                 par16 = vpk.parents.get(c16)
                 in_with = isinstance(par16, ast.withitem) or (isinstance(par16, ast.Attribute) and par16.attr == 'close' and isinstance(vpk.parents.get(par16), ast.Call))          # `open(p, 'wb').close()`: created and closed at once
+                if not in_with and isinstance(par16, ast.Assign) and len(par16.targets) == 1 and isinstance(par16.targets[0], ast.Name):
+                    # `f = open(...)` ... `f.close()` in the same function (try/finally style) is closed where it was opened as well
+                    hv = par16.targets[0].id
+                    closed = any(isinstance(x, ast.Call) and isinstance(x.func, ast.Attribute) and x.func.attr == 'close' and dotted(x.func.value) == hv for x in walk_no_nested(f16))
+                    escapes = any(isinstance(x, ast.Return) and x.value is not None and any(isinstance(y, ast.Name) and y.id == hv for y in ast.walk(x.value)) for x in walk_no_nested(f16)) \
+                        or any(isinstance(x, ast.Assign) and any(isinstance(t, (ast.Attribute, ast.Subscript)) for t in x.targets) and any(isinstance(y, ast.Name) and y.id == hv for y in ast.walk(x.value)) for x in walk_no_nested(f16))
+                    if closed and not escapes:
+                        in_with = True
+                    elif not escapes:
+                        ctx.shape('C13.Z16', False, vpk, c16, f'{q16}: what happens to the handle `{hv}` opened for writing was not recognised', func=q16, text=f'{q16}: `{U(c16)[:40]}` closed where it was opened')
+                        continue
                 ctx.check('C13.Z16', in_with, vpk, c16, f'{q16} opens `{U(c16)[:60]}` outside a `with` block and keeps the handle: what was appended last stays in the handle\'s buffer, so after write_dirfile() the '
                           'directory lists a file whose bytes are not in the archive yet (a reopened VPK reads it back short)', func=q16, text=f'{q16}: `{U(c16)[:40]}` closed where it was opened')
     ctx.shape('C13.Z16', n16 >= 2, vpk, vpk.tree, f'{n16} opens for writing found in vpk.py (FileInfo.write and write_dirfile confirmed by hand)', text='opens for writing')
